@@ -308,7 +308,7 @@ func (vc *VC) evalIndex(v SVal, i string, env *Env) SVal {
 	switch v.K {
 	case KSlice:
 		el := v.T.Underlying().(*types.Slice).Elem()
-		p := ptrV(types.NewPointer(el), v.obj(), add(v.off(), mul(i, litI(flatLen(el)))))
+		p := ptrV(types.NewPointer(el), v.obj(), idx(v.off(), mul(i, litI(flatLen(el)))))
 		p.Key = ptrKeyFor(el)
 		if _, isArr := el.Underlying().(*types.Array); isArr {
 			p.Key = typeKey(flatElem(el))
@@ -318,7 +318,7 @@ func (vc *VC) evalIndex(v SVal, i string, env *Env) SVal {
 		}
 		return vc.loadSpec(p, el, env.mem)
 	case KString:
-		return intV(vc.leafLoad(env.mem, "uint8", SInt, v.obj(), add(v.off(), i)), types.Typ[types.Uint8])
+		return intV(vc.leafLoad(env.mem, "uint8", SInt, v.obj(), idx(v.off(), i)), types.Typ[types.Uint8])
 	case KArr:
 		if v.T == nil {
 			return mkInt(sel(v.S, i))
@@ -328,7 +328,7 @@ func (vc *VC) evalIndex(v SVal, i string, env *Env) SVal {
 		// pointer to array
 		if pt, ok := v.T.Underlying().(*types.Pointer); ok {
 			if arr, ok := pt.Elem().Underlying().(*types.Array); ok {
-				return intV(vc.leafLoad(env.mem, typeKey(flatElem(arr)), SInt, v.obj(), add(v.off(), i)), flatElem(arr))
+				return intV(vc.leafLoad(env.mem, typeKey(flatElem(arr)), SInt, v.obj(), idx(v.off(), i)), flatElem(arr))
 			}
 		}
 	}
